@@ -205,12 +205,12 @@ reg('C10', 'other',
     'Context independence decided on the scanner\'s case tables (fresh start, A+separator+B) and by a typestate analysis of the scratch builders.',
     MACHINE, T_VM + '; MIR typestate dataflow', 'DESIGN.md §10.3, §10.5')
 reg('C11', 'other',
-    [textflow.rule_case_flow, scanvm.rule_case_scanner, only(scanvm.rule_validator_entry, r'^words\|(case|plain)\|'), sentences.rule_case_in_sentences],
-    "B9 no raw-case text (Token::text, &str parameters of the public API) reaches a vocabulary lookup, lemmatizer or interpreter without passing "
-    "through a lowercase conversion (taint flow over the call graph); V11 the scanner's case table is unchanged when every token text is upper-cased "
+    [sentences.rule_linking_case, scanvm.rule_case_scanner, only(scanvm.rule_validator_entry, r'^words\|(case|plain)\|'), sentences.rule_case_in_sentences],
+    "S11 sentences with numbers and with the language's own linking words, in lower, UPPER and Capitalised form, give the same numbers in each real "
+    "language at thresholds 0 and 10; V11 the scanner's case table is unchanged when every token text is upper-cased "
     "(lowercase form kept); text2digits hands the lower-cased words to the group interpreter.",
-    'Case-insensitivity decided as a taint-flow rule plus the scanner case table under upper-casing.',
-    'Unicode special casing (ß, İ) is whatever str::to_lowercase does.', 'static analysis: MIR taint flow over the call graph; ' + T_VM, 'DESIGN.md §10.3, §2 B9')
+    'Case-insensitivity decided by the scanner case table under upper-casing and by re-cased sentences in the seven real languages.',
+    'Unicode special casing (ß, İ) is whatever str::to_lowercase does.', T_VM, 'DESIGN.md §10.2, §10.3')
 reg('C12', 'other',
     [dsvm.rule_builder_cases, builder.rule_fail_atomic, builder.rule_frozen_first, _c12_sites],
     "V12 every sequence of public building operations (35 operation instances x depth 2, 12 x depth 4; deeper in thorough) interpreted from the MIR of "
